@@ -25,6 +25,10 @@ fn slots16() -> Vec<Slot> {
     for _ in 0..4 {
         v.push(Slot::fresh());
     }
+    // beyond 16 entries as well
+    for i in 0..8 {
+        v.push(Slot::numeric(100 + i * 7));
+    }
     v
 }
 
@@ -378,7 +382,7 @@ fn run_long(c: &LongSeq, obs: &mut Obs) -> Result<(), String> {
     let mut r2 = Ref::new();
     let mut maxlen = 0;
     for (i, (kind, k, v)) in c.ops.iter().enumerate() {
-        let (k, v) = (s[*k as usize % 16], s[*v as usize % 16]);
+        let (k, v) = (s[*k as usize % s.len()], s[*v as usize % s.len()]);
         match kind % 8 {
             0..=3 => {
                 m.insert(k, v);
@@ -401,11 +405,11 @@ fn run_long(c: &LongSeq, obs: &mut Obs) -> Result<(), String> {
                 let mut rr = Ref::new();
                 for (x, y) in r.iter() {
                     let p = s.iter().position(|z| z == y).unwrap();
-                    rr.insert(*x, s[(p + 1) % 16]);
+                    rr.insert(*x, s[(p + 1) % s.len()]);
                 }
                 for y in m.values_mut() {
                     let p = s.iter().position(|z| z == y).unwrap();
-                    *y = s[(p + 1) % 16];
+                    *y = s[(p + 1) % s.len()];
                 }
                 r = rr;
             }
@@ -419,6 +423,9 @@ fn run_long(c: &LongSeq, obs: &mut Obs) -> Result<(), String> {
     binary_laws(&m2, &r2, &m, &r, &s)?;
     if maxlen > 10 {
         obs.label("beyond-inline-capacity");
+    }
+    if maxlen > 17 {
+        obs.label("more-than-17-entries");
     }
     obs.nontrivial = maxlen > 10;
     Ok(())
@@ -463,13 +470,13 @@ pub fn property(tier: Tier) -> Property {
     stages.push(Box::new(Stage {
         name: "random-long",
         source: random(
-            || proptest::collection::vec((any::<u8>(), any::<u8>(), any::<u8>()), 0..80).prop_map(|ops| LongSeq { ops }).boxed(),
+            || proptest::collection::vec((any::<u8>(), any::<u8>(), any::<u8>()), 0..120).prop_map(|ops| LongSeq { ops }).boxed(),
             tier.pick(20_000, 400_000),
         ),
         run: run_long,
         panic_is_violation: true,
         render: |c: &LongSeq| format!("{:?}", c.ops),
-        rule: "random sequences of up to 80 insert/remove/values_mut/swap operations on two maps over 16 slots (numeric, named, f<n>-named, fresh); non-trivial = a map grew beyond the inline capacity of 10; distinct by sequence",
+        rule: "random sequences of up to 80 insert/remove/values_mut/swap operations on two maps over 24 slots (numeric, named, f<n>-named, fresh); non-trivial = a map grew beyond the inline capacity of 10; distinct by sequence",
         case_timeout_s: 60,
         exhaustive: false,
     }));
